@@ -95,7 +95,13 @@ class Machine(base.Machine):
 
     def _apply_gen(self, op):
         if op["layout"] != "periodic":
-            return super()._apply_gen(op)
+            try:
+                return super()._apply_gen(op)
+            except Violation as v:  # same oracle, reported under this property's name
+                if v.invariant.startswith("C11."):
+                    v.invariant = "C17.fresh_equal." + v.invariant[4:]
+                    v.args = (v.invariant,)
+                raise
         pts = np.array(op["pts"], dtype=np.double).T  # (dim, n)
         if pts.ndim != 2 or pts.shape[0] != self.dim or pts.shape[1] == 0:
             raise Inapplicable("bad points")
